@@ -29,7 +29,7 @@ def allowed_axiom(a):
 
 
 def model_files():
-    txt = open(os.path.join(V, "coq", "theories", "Extract", "Extract.v")).read() + open(os.path.join(V, "coq", "theories", "Extract", "ExtractFidRef.v")).read()
+    txt = open(os.path.join(V, "coq", "theories", "Extract", "Extract.v")).read() + open(os.path.join(V, "coq", "theories", "Extract", "ExtractFidRef.v")).read() + open(os.path.join(V, "coq", "theories", "Extract", "ExtractBuf.v")).read()
     txt = re.sub(r"\(\*.*?\*\)", "", txt, flags=re.S)
     out = []
     for m in re.finditer(r"From V9 Require Import ([^.]*(?:\.[A-Za-z][^.\s]*)*)\.", txt):
@@ -190,9 +190,10 @@ PROPS = {
     },
     "C03": {
         "clauses": ["C03"],
-        "modes": [{"name": "srvconc", "harness": "srvconc", "modelcheck": "conc"}],
-        "rule": "real server + scripted implementation whose operations block until the plan releases them: 1..6 simultaneously outstanding requests released in random orders (sync and from other goroutines), duplicate answers with different content, framework rejections mixed in, Maxpend 0/1/4, with and without FlushOp; flush scenarios, tag groups and disconnects (shared with C07/C08/C11). Every schedule point of the library is logged and the label list is REPLAYED through the Coq LTS (each label must be enabled; the model's wire must equal the real one as a multiset); oracle on the real wire: no reply for a tag without request, at most one reply per request, content one of the answers produced for that request, answered requests get their reply. Non-trivial: >= 3 requests in the history; distinct by content.",
-        "level_text": "Coq theorems (Props/C03.v) over the life-cycle LTS of a connection (recv linking, process() test of reqFlush/reqWork, Respond as R1 test-and-set / PostProcess / enqueue / unlink / next-of-tag-group / flush loop, send goroutine, Flush, flush, version, disconnect) for EVERY reachable state - any number of outstanding requests, any interleaving, any number of answers from any goroutine: at most one reply per request is ever queued or written; every reply carries the tag of a received request and a content packed for that request (exactly the answer when there was one answer); at quiescence on an open connection every answered, not cancelled request has exactly one reply on the wire. Tied to the code by replaying real schedule-point traces through the LTS.",
+        "modes": [{"name": "srvconc", "harness": "srvconc", "modelcheck": "conc"},
+                  {"name": "srvbuf", "harness": "srvconc", "modelcheck": "bufref", "args": ["buf"]}],
+        "rule": "reply buffers: the same histories a second time with the buffer life cycle logged (request takes a pooled or a fresh Fcall, test-and-pack with the content id, Respond wins / cancelled, dequeue by the send goroutine, every Write with the content id of the bytes the transport was given, recycling) and REPLAYED through Srv/Buf.v: the pooled buffer taken must be the model's pool head, every step enabled, and the bytes written must be the bytes packed for that request (scenarios slowwrite, lateanswer: a held Write while later requests are answered into recycled buffers / a delayed second answer). And: real server + scripted implementation whose operations block until the plan releases them: 1..6 simultaneously outstanding requests released in random orders (sync and from other goroutines), duplicate answers with different content, framework rejections mixed in, Maxpend 0/1/4, with and without FlushOp; flush scenarios, tag groups and disconnects (shared with C07/C08/C11). Every schedule point of the library is logged and the label list is REPLAYED through the Coq LTS (each label must be enabled; the model's wire must equal the real one as a multiset); oracle on the real wire: no reply for a tag without request, at most one reply per request, content one of the answers produced for that request, answered requests get their reply. Non-trivial: >= 3 requests in the history; distinct by content.",
+        "level_text": "Coq theorems (Props/C03.v) over the reply-buffer LTS (Srv/Buf.v: any number of requests, buffers recycled between them, any number of answers per request from any goroutine): every Write hands the transport bytes packed for that very request, a buffer in use belongs to exactly one request, the pool holds free buffers only (the code before fix 6aa8132 - test and pack as two steps - and recycling before the Write are refuted by schedules); and over the life-cycle LTS of a connection (recv linking, process() test of reqFlush/reqWork, Respond as R1 test-and-set / PostProcess / enqueue / unlink / next-of-tag-group / flush loop, send goroutine, Flush, flush, version, disconnect) for EVERY reachable state - any number of outstanding requests, any interleaving, any number of answers from any goroutine: at most one reply per request is ever queued or written; every reply carries the tag of a received request and a content packed for that request (exactly the answer when there was one answer); at quiescence on an open connection every answered, not cancelled request has exactly one reply on the wire. Tied to the code by replaying real schedule-point traces through the LTS.",
         "level_note": "Trusted: Coq kernel; extraction + OCaml driver; the Go harness: the translation of the library's schedule points (verifPoint hooks, logged under one mutex inside the library's own critical sections) into LTS labels, the scripted implementation, the fake transport. The LTS over-approximates call/return of nested Respond calls (every real schedule is a schedule of the LTS); mutex atomicity, channel FIFO/rendezvous and goroutine semantics of the Go runtime are assumed; the fid table and message contents are abstracted (C04/C05 and content ids); reply-buffer recycling between requests is exercised by the harness only. Print Assumptions: closed under the global context.",
     },
     "C07": {
